@@ -67,6 +67,8 @@ func callOfPath(p *pgen.Program, callPath string) *pgen.Call {
 }
 
 type VdrStats struct {
+	ResetAttemptFiles int // files of job attempts that mrp reset (restart / retry)
+	InterruptedRemovals int // removals by an interrupted mrp whose report was never written
 	Removals, Reports, WrittenChecked, TmpDirsChecked, ListedPaths int
 }
 
@@ -99,8 +101,47 @@ func CheckVDR(o *Obs, p *pgen.Program, m *pgen.Model, r *Report, mode string, tr
 		name        string
 	}
 	var invs []inv
+	var unreported []string // roots removed by an interrupted process before it could report
+	// An mrp process that was interrupted may have removed things in a
+	// clean-up step whose report it never got to write; the property asks for
+	// exact accounting across an interruption *between* clean-up steps only.
+	// Removals of an interrupted process that no later report write of the
+	// same process covers are therefore left out of the sums (they still
+	// count for survival and coverage).
+	lastPid := 0
 	for _, t := range trace {
+		if t.Proc == "mrp" {
+			lastPid = t.Pid
+		}
+	}
+	flushed := map[int]bool{} // index into trace -> a report write for its fork followed in the same process
+	{
+		pending := map[string][]int{} // pid|fq -> trace indexes
+		for i, t := range trace {
+			if t.Proc != "mrp" || len(t.Detail) == 0 {
+				continue
+			}
+			if strings.HasPrefix(t.Name, "vdr:remove") && len(t.Detail) > 1 {
+				k := fmt.Sprint(t.Pid, "|", t.Detail[1])
+				pending[k] = append(pending[k], i)
+			}
+			switch t.Name {
+			case "vdr:partial:write", "vdr:final:write", "meta:write:vdrkill", "meta:write:vdrkill.partial":
+				k := fmt.Sprint(t.Pid, "|", t.Detail[0])
+				for _, j := range pending[k] {
+					flushed[j] = true
+				}
+				delete(pending, k)
+			}
+		}
+	}
+	for ti, t := range trace {
 		if !strings.HasPrefix(t.Name, "vdr:remove") || t.Proc != "mrp" || len(t.Detail) == 0 || t.Count == nil {
+			continue
+		}
+		if t.Pid != lastPid && !flushed[ti] {
+			st.InterruptedRemovals++
+			unreported = append(unreported, t.Detail[0])
 			continue
 		}
 		x := inv{root: t.Detail[0], count: *t.Count, size: *t.Size, name: t.Name}
@@ -120,7 +161,30 @@ func CheckVDR(o *Obs, p *pgen.Program, m *pgen.Model, r *Report, mode string, tr
 			r.add("C14", "removal-outside-pipestance", "VDR removed "+x.root+" which is outside the pipestance directory "+ps, nil)
 		}
 	}
+	// Jobs whose metadata and files mrp reset (on restart after an
+	// interruption, or on retry): what an earlier attempt wrote is gone
+	// without being a VDR removal.
+	resetAt := map[string]int64{}
+	for _, t := range trace {
+		if t.Name == "meta:removeAll" && len(t.Detail) > 0 {
+			if t.T > resetAt[t.Detail[0]] {
+				resetAt[t.Detail[0]] = t.T
+			}
+		}
+	}
+	jobFq := func(job string) string {
+		parts := strings.Split(job, "/")
+		for i := range parts {
+			parts[i] = strings.NewReplacer("%", "%25", ".", "%2E").Replace(parts[i])
+		}
+		return "ID.psid." + strings.Join(parts, ".")
+	}
 	covered := func(path string) bool {
+		for _, root := range unreported {
+			if path == root || strings.HasPrefix(path, root+"/") {
+				return true
+			}
+		}
 		for _, x := range invs {
 			if path == x.root || strings.HasPrefix(path, x.root+"/") {
 				return true
@@ -256,6 +320,10 @@ func CheckVDR(o *Obs, p *pgen.Program, m *pgen.Model, r *Report, mode string, tr
 				} else if exists && volatile && !(w.Tok != "" && keep[w.Tok]) && !underKept(w.Path, e.Written, keep) {
 					r.add("C14", "volatile-file-survives"+consumedHow(p, f.CallPath, w.Path), fmt.Sprintf("file %s written by volatile stage call %s (mode %s) survives although no top-level output or retain names it", o.Case.Canon(w.Path), f.CallPath, mode), nil)
 				}
+			}
+			if !exists && resetAt[jobFq(e.Job)] > e.T {
+				st.ResetAttemptFiles++
+				continue
 			}
 			if !exists && !covered(w.Path) && !covered(vrun.StripUniq(w.Path)) {
 				r.add("C14", "disappeared-unaccounted", fmt.Sprintf("file %s written by %s no longer exists but no observed removal covers it", o.Case.Canon(w.Path), e.Job), nil)
